@@ -218,7 +218,51 @@ def run(report, p):
                 if isinstance(v, ast.Constant) and v.value is True and f.cls and f.cls.endswith("MHLHashList"):
                     r6.check(False, f, n, "the hash list marks records as directories itself", construct="is_directory set in the model")
 
+    # ------------------------------------------------------------------ R2.7
+    r7 = report.rule(
+        "R2.7",
+        "a record is keyed by the name under which the file was reached from the root: no path that went through symbolic-link resolution (os.path.realpath, Path.resolve, "
+        "os.readlink) reaches a record key, a history lookup or a traversal root - a link on the named path would otherwise be recorded under its target's name or with a path "
+        "that leaves the root",
+        4,
+    )
+    RESOLVERS = ("os.path.realpath", "realpath", "os.readlink", "readlink")
+    SINKS = ("get_relative_file_path", "find_history_for_path", "find_or_create_media_hash_for_path", "post_order_lexicographic", "set_of_file_paths")
+
+    def _resolved(term):
+        for st in subterms(term):
+            if st[0] == "call" and (st[1].replace("ext:", "").replace("unk:", "") in RESOLVERS or st[1].endswith((".resolve", ":resolve"))):
+                return st
+        return None
+
+    reached = {}  # resolver call node -> [(sink name, func, call)]
+    for fq, f in sorted(p.funcs.items()):
+        if f.module.name in _unshipped:
+            continue
+        for call, tg in p.calls[fq]:
+            hit = next((t for t in tg if t.split(".")[-1] in SINKS), None)
+            if hit is None:
+                continue
+            r7.instance(f, call, norm(call)[:80])
+            for a in list(call.args) + [k.value for k in call.keywords]:
+                for o in pr.origins(a, f):
+                    try:
+                        full = pr.expand_params(o, depth=3)
+                    except AnalysisError:
+                        full = o
+                    bad = _resolved(full)
+                    if bad is not None:
+                        node = bad[4] if len(bad) > 4 and isinstance(bad[4], ast.AST) else None
+                        reached.setdefault(id(node) if node is not None else show(bad), (bad, node, []))[2].append((hit.split(".")[-1], f, call))
+    for bad, node, sinks in reached.values():
+        # reported once, at the resolving call
+        owner = next((g for g in p.funcs.values() if node is not None and any(x is node for x in ast.walk(g.node))), sinks[0][1])
+        names = sorted({s_ for s_, _, _ in sinks})
+        r7.check(False, owner, node if node is not None else sinks[0][2], f"a path that went through `{show(bad)[:80]}` reaches {', '.join(names)}: with a symbolic link on the way the file is recorded under the link target's location (or outside the root), not under the name it has in the tree", construct=f"symlink-resolved path reaches {names[0]}")
+    r7.check(True, None, None, "")
+
     # ---- rules shared with other properties (same mechanism, same rule, reported under every property it can break)
+    include_rules(report, p, 'c03', ['R3.11'], 'create logs every file it records; a logger that raises aborts the run before the generation is written')
     include_rules(report, p, 'c08', ['R8.1', 'R8.2'], 'records must land in the deepest history with a path relative to its root (routing)')
     include_rules(report, p, 'c01', ['R1.1'], 'a record carries a correct digest only if the whole file is hashed')
     include_rules(report, p, 'c13', ['R13.3'], 'record keys must never carry an absolute location')
